@@ -104,9 +104,9 @@ PROPS = {
     "C18": dict(
         level="exploration",
         rule="a hand-written family of 9 struct types against the generated dictionary (one AVP per type name, nested groups, vendor-specific AVPs) and the default dictionary: native Go scalars (string, []byte, int*, uint*, float*, time.Time, net.IP), every datatype type incl. IPv4/IPv6/QoSFilterRule, *T, []T, []*T, [][]byte, AVP / *AVP / []*AVP tagged with grouped and non-grouped AVPs, nested / pointer-to / slice-of / anonymous / embedded structs, omitempty on every kind next to a field without it; values drawn with zero values, empty (non-nil) slices and nil pointers. Each value is marshalled, the AVP list compared with the list built by hand from the dictionary (code, vendor id, M, V, typed value), unmarshalled directly and after Serialize -> ReadMessage into a fresh value and compared (nil == empty slice, Time by second, floats by bits). distinct_nontrivial counts distinct (struct type, number of AVPs produced) classes.",
-        runs=dict(quick=[plain("TestC18", 8)], thorough=[plain("TestC18", 16, 3000)]),
+        runs=dict(quick=[plain("TestC18", 8), plain("TestC18Apps", 4)], thorough=[plain("TestC18", 16, 3000), plain("TestC18Apps", 8)]),
         floor=dict(quick=30000, thorough=1000000),
-        need_events=["roundtrips", "avps_compared"],
+        need_events=["roundtrips", "avps_compared", "app_marshals"],
         assumptions=TRUST + ["within one struct each AVP name is used by one field; net.IP values are 4-byte IPv4 or 16-byte non-v4-mapped IPv6; -0.0 under omitempty counts as empty; a zero-valued diam.AVP struct field (no Data) is outside the family"],
     ),
     "C07": dict(
